@@ -33,8 +33,13 @@ MN_NAMES = ["mov", "ov", "movl", "push", "ret", "add"]
 OP_NAMES = ["rax", "ax", "%rax", "eax", "rbx", "0x1", "0x10", 1, "%r8"]
 
 
+def _norm(o):
+    n = rm.normalise_operand(o)
+    return o if n is None else n   # operand texts outside the C09 table (e.g. %fs:0x28) reach patterns unchanged
+
+
 def norm_inst(addr, mn, ops):
-    return (addr, mn, tuple(rm.normalise_operand(o) for o in ops))
+    return (addr, mn, tuple(_norm(o) for o in ops))
 
 
 def listings_over(alphabet, maxlen, minlen=0):
